@@ -76,7 +76,7 @@ type jobctlWorld struct {
 
 	// kubelet ground truth (what the simulated kubelet really did, whatever the pod status shows)
 	trueFinish        map[string]int64 // name -> instant (ns) at which the kubelet put the pod into a terminal phase
-	finishUnreported  map[string]bool  // ... and the pod status carries no container termination time for it (eviction, node lost, DeadlineExceeded): outside E-FinishTimeReported
+	finishUnreported  map[string]bool  // ... and the pod status carries no container termination time for it (eviction, node lost, DeadlineExceeded): the controller records its own observation time (F30 repaired)
 	everRan           map[string]int64 // name -> instant (ns) at which the kubelet first started a container of the pod
 	ctlDeleted        map[string]bool  // the controller itself issued a successful delete for this pod
 	deletedUnlisted   map[string]bool  // ... in a pass one of whose calls failed and after which the authoritative status did not list it: outside E-DeleteRecorded
@@ -975,19 +975,22 @@ func (w *jobctlWorld) monitorCall(c sim.Call) {
 		}
 		// ... and the same clause on GROUND TRUTH: the instant at which the simulated kubelet really
 		// ended each earlier attempt of the index (the recorded finish time above is what the
-		// controller derived from the pod status).  E-FinishTimeReported: the pod status of a
-		// terminated attempt carries a container termination time; outside it (eviction, node lost,
-		// DeadlineExceeded: no container status) the history is counted, and judged only by the
-		// replay of the known finding F30.
+		// controller recorded).  Judged at full strength on every history since the repair of F30:
+		// a pod whose status carries no container termination time (eviction, node lost: no
+		// container status) is recorded with the clock of the pass that first saw it finished,
+		// which is not before the true end (the former envelope E-FinishTimeReported is gone; such
+		// attempts are counted as `jc.retry-judged-on-unreported-finish-time`).
 		if delay := int64(j.GetRetryDelay()); retry > 0 {
 			for k := 0; k < retry; k++ {
 				prev := fmt.Sprintf("%s-%s-%d", j.Name, hash, k)
 				tf, ok := w.trueFinish[prev]
-				if !ok || w.now() >= tf+delay {
+				if !ok {
 					continue
 				}
-				if w.finishUnreported[prev] && !w.keepMonitors {
-					w.c.Count("jc.envelope.retry-judged-on-unreported-finish-time")
+				if w.finishUnreported[prev] {
+					w.c.Count("jc.retry-judged-on-unreported-finish-time")
+				}
+				if w.now() >= tf+delay {
 					continue
 				}
 				w.c.Violate("C08", "retry-delay-true-finish", "pod %s created at %d s although the previous attempt %s really finished at %d s (kubelet ground truth) and the retry delay is %d s; the finish time recorded for it is %s",
@@ -1881,8 +1884,8 @@ func (w *jobctlWorld) kubelet(p *corev1.Pod, action int) {
 		// ground truth: the attempt ended NOW, whatever the pod status lets the controller derive
 		w.trueFinish[p.Name] = w.now()
 		if np := w.apiPod(p.Name); np != nil && !podReportsTermination(np) {
-			w.finishUnreported[p.Name] = true // E-FinishTimeReported does not hold for this pod
-			w.c.Count("jc.envelope.finish-time-not-reported")
+			w.finishUnreported[p.Name] = true // the controller has to record its own observation time (F30 repaired)
+			w.c.Count("jc.kubelet.finish-time-not-reported")
 		}
 		act = "term" + fmt.Sprint(kind)
 	case action == 6:
